@@ -311,6 +311,7 @@ func (p *Program) Inlined(fn *ssa.Function) *ssa.Function {
 	}
 	region := []*ssa.Function{fn}
 	inRegion := map[*ssa.Function]bool{fn: true}
+	folded := map[*ssa.Call]bool{}
 	// expand transparent calls until none is left (bounded)
 	for round := 0; round < 400; round++ {
 		var blk *ssa.BasicBlock
@@ -345,6 +346,21 @@ func (p *Program) Inlined(fn *ssa.Function) *ssa.Function {
 			break
 		}
 		callee := call.Call.StaticCallee()
+		// h(x, f(x)) where an exported E(x) is exactly `return h(x, f(x))`: the call is E(x)
+		for k := range call.Call.Args {
+			call.Call.Args[k] = il.resolve(call.Call.Args[k])
+		}
+		if w, args := p.foldWrapper(fn, call, callee); w != nil {
+			nc := cloneInstr(call).(*ssa.Call)
+			nc.Call.Value = w
+			nc.Call.Method = nil
+			nc.Call.Args = args
+			blk.Instrs[idx] = nc
+			il.subst[call] = nc
+			il.chain[nc] = il.chain[call]
+			folded[nc] = true
+			continue
+		}
 		if !inRegion[callee] {
 			inRegion[callee] = true
 			region = append(region, callee)
@@ -1195,4 +1211,92 @@ func selfTestInline() error {
 		}
 	}()
 	return err
+}
+
+// wrapper describes a thin wrapper E around a helper h: E's body is one block that computes
+// some arguments from its own parameters and returns h(args).
+type wrapper struct {
+	fn   *ssa.Function
+	args []ssa.Value // arguments of the call to h inside fn
+}
+
+var wrappersOf map[*ssa.Function][]wrapper
+
+// foldWrapper: a call h(a...) in the body of `in` is the same as E(b...) when a non-transparent
+// function E of the module is exactly `return h(e...)` and the call's arguments are E's
+// argument expressions under a binding of E's parameters (compared in canonical form).
+// Returning E and the bound arguments lets the caller keep the stable, exported name in all
+// canonical forms when a worker with a precomputed argument was split off E.
+func (p *Program) foldWrapper(in *ssa.Function, call *ssa.Call, h *ssa.Function) (*ssa.Function, []ssa.Value) {
+	if wrappersOf == nil {
+		wrappersOf = map[*ssa.Function][]wrapper{}
+		for fn := range p.AllFunctions() {
+			if !IsModPkg(FnPkgPath(fn)) || len(fn.Blocks) != 1 || Transparent(fn) || fn.Parent() != nil || fn.Synthetic != "" {
+				continue
+			}
+			instrs := fn.Blocks[0].Instrs
+			ret, ok := instrs[len(instrs)-1].(*ssa.Return)
+			if !ok || len(ret.Results) != 1 {
+				continue
+			}
+			inner, ok := ret.Results[0].(*ssa.Call)
+			if !ok || !Transparent(inner.Call.StaticCallee()) {
+				continue
+			}
+			pure := true
+			for _, x := range instrs[:len(instrs)-1] {
+				switch x.(type) {
+				case *ssa.Call, *ssa.FieldAddr, *ssa.Field, *ssa.UnOp, *ssa.DebugRef, *ssa.IndexAddr, *ssa.Index, *ssa.BinOp, *ssa.Convert, *ssa.ChangeType:
+				default:
+					pure = false
+				}
+			}
+			if pure {
+				callee := inner.Call.StaticCallee()
+				wrappersOf[callee] = append(wrappersOf[callee], wrapper{fn, inner.Call.Args})
+			}
+		}
+	}
+	for _, w := range wrappersOf[h] {
+		if w.fn == in || len(w.args) != len(call.Call.Args) {
+			continue
+		}
+		bind := map[*ssa.Parameter]ssa.Value{}
+		ok := true
+		for i, e := range w.args {
+			if par, isP := e.(*ssa.Parameter); isP {
+				if old, seen := bind[par]; seen && old != call.Call.Args[i] {
+					ok = false
+				}
+				bind[par] = call.Call.Args[i]
+			}
+		}
+		if !ok || len(bind) != len(w.fn.Params) {
+			continue
+		}
+		c := NewCanon(p)
+		env := map[*ssa.Parameter]string{}
+		for par, v := range bind {
+			env[par] = c.Of(v)
+		}
+		for i, e := range w.args {
+			if _, isP := e.(*ssa.Parameter); isP {
+				continue
+			}
+			cw := NewCanon(p)
+			cw.env = append(cw.env, env)
+			if cw.Of(e) != c.Of(call.Call.Args[i]) {
+				ok = false
+			}
+		}
+		if !ok {
+			continue
+		}
+		args := make([]ssa.Value, len(w.fn.Params))
+		for i, par := range w.fn.Params {
+			args[i] = bind[par]
+		}
+		return w.fn, args
+	}
+	return nil, nil
 }
